@@ -502,6 +502,16 @@ def method_nested(ds): return ds.Select(lambda e: e.jets.Select(lambda j: j.pt *
 CUT5 = 5
 def helper_with_dict(x): return x.f(THR.get("pt"), CUT5)
 def method_of_dict_in_helper(ds): return ds.Select(lambda e: (helper_with_dict(e.pt), CUT5))
+# ... reached through one-line helpers: what a helper captures and cannot be sent is the caller's to hear about (ValueError), the
+# helper does not quietly stay a call by name
+def above_h(x): return x > THR.get("pt")
+def scaled_h(x): return CUTS.scaled(x)
+def listed_h(x): return RUNS.index(x)
+def outer_h(x): return above_h(x) and x < 100
+def method_of_dict_via_helper(ds): return ds.Where(lambda e: above_h(e.pt))
+def method_of_instance_via_helper(ds): return ds.Select(lambda e: scaled_h(e.pt))
+def method_of_list_via_helper(ds): return ds.Select(lambda e: e.jets.Select(lambda j: listed_h(j.run)))
+def method_of_dict_via_two_helpers(ds): return ds.Where(lambda e: outer_h(e.pt))
 def missing_attr_of_instance(ds): return ds.Select(lambda e: CUTS.nothere + e.pt)
 def missing_method_of_instance(ds): return ds.Select(lambda e: CUTS.nothere(e.pt))
 def missing_attr_of_dict(ds): return ds.Select(lambda e: e.f(THR.nothere))
@@ -543,7 +553,8 @@ def object_routes(ctx):
     m = modgen.load(OBJECT_SRC, "c04obj")
     w = {"objects": True}
     for name in ("method_of_dict", "method_of_list", "method_of_instance", "method_of_closure_dict", "method_nested", "method_of_dict_in_helper", "missing_attr_of_instance",
-                 "missing_method_of_instance", "missing_attr_of_dict", "missing_attr_two_steps", "missing_attr_three_steps_called", "missing_attr_two_steps_argument"):
+                 "missing_method_of_instance", "missing_attr_of_dict", "missing_attr_two_steps", "missing_attr_three_steps_called", "missing_attr_two_steps_argument",
+                 "method_of_dict_via_helper", "method_of_instance_via_helper", "method_of_list_via_helper", "method_of_dict_via_two_helpers"):
         ctx.case(f"object-route:{name}", True)
         try:
             s = getattr(m, name)(m.DS())
@@ -555,7 +566,10 @@ def object_routes(ctx):
             continue
         lam = s.query_ast.args[1]
         free = sorted(astx.free_names(lam) & {"THR", "RUNS", "CUTS", "local_map", "CUT5"})
-        if free:
+        by_name = sorted(astx.free_names(lam) & {"above_h", "scaled_h", "listed_h", "outer_h", "helper_with_dict"})
+        if by_name:
+            ctx.violation("unsendable-capture-of-a-helper-not-reported", f"{name}: no ValueError for what the one-line helper {by_name} captures and cannot send; it stays a call by name: {astx.unparse(lam)[:160]}", w)
+        elif free:
             ctx.violation("captured-name-left-in-query", f"{name}: no ValueError and the recorded lambda still names {free}: {astx.unparse(lam)[:160]}", w)
     for name, want in (("attr_of_callable", [30.0, "AntiKt4", 12.5]), ("enum_class_constant", [30.0, "Tone"]), ("enum_member_steps", [2, "HIGH", 2, "fast", "FAST", 2, 2]), ("default_from_local", [9, 10]), ("default_of_def", [9, 10])):
         ctx.case(f"object-route:{name}", True)
